@@ -35,6 +35,12 @@ def classify_trace(rec):
     """Known-finding recogniser for rejected trace lines (the deviation is decided by TLC, see ParseTrace.tla)."""
     if "deviation TermAttrFromPlIndex" in rec["reason"] and rec["line"]["calls"]:
         return "F09-term-attr-from-pl-index"
+    if rec["reason"].startswith("C03: fewer denoted translations than derivations"):
+        # completeness losses of make_parse recognised by its hook events in that very parse (every denoted tree was checked to be a translation)
+        if rec["line"].get("mp2", 0) > 0:
+            return "F21-reused-anode-loses-alternatives"
+        if rec["line"].get("mp1", 0) > 0:
+            return "F19-untranslated-multi-origin"
     return None
 
 
@@ -123,6 +129,9 @@ def check_trans(res, scratch, tier, seed, prop, matrix, rule):
     corpus_part(res, scratch, tier, seed, prop, matrix, ("curated", "random_trans", "random_amb"), trees=True, builds=builds, mems=(0, 0, 1, 2))
     # inputs of 7-13 tokens: membership of every returned tree decided by TLC (Member.tla) instead of enumerating all translations
     long_trace_part(res, scratch, tier, seed, builds, (prop,))
+    if prop in ("C03", "C05"):
+        # completeness on inputs of 6-11 tokens: the number of denoted trees against the number of derivations counted by TLC
+        count_trace_part(res, scratch, tier, seed, builds, (prop,))
     res.cov["exhaustive"] = True
     res.assumptions = ["small-scope: exhaustive only over the stated families",
                        "expected translation sets are computed by TLC from spec/Trans.tla (least fixed point over spans)"]
@@ -1547,6 +1556,77 @@ def look_trace_part(res, scratch, tier, seed, builds):
     res.notes["lookahead_sets_lines_validated"] = res.notes.get("lookahead_sets_lines_validated", 0) + len(lines)
     res.notes["lookahead_sets_validated"] = res.notes.get("lookahead_sets_validated", 0) + sum(len(ln["sets"]) for ln in lines)
     res.notes["lookahead_machine_drift"] = res.notes.get("lookahead_machine_drift", 0) + ndrift
+
+
+def count_trace_part(res, scratch, tier, seed, builds, props):
+    """Completeness of the all-parses result on inputs of 6-11 tokens: grammars whose every rule has its own abstract node with all
+    right-hand side symbols in order (so that every derivation has its own translation), all parses without the cost flag; TLC counts
+    the derivations by a fixed point over the derivable spans (Deriv!NDerivCappedAt) and validates the line (ParseTrace.tla): the number
+    of denoted trees equals the number of derivations, every denoted tree is a translation, the ambiguity flag is set iff the count
+    is at least 2."""
+    import concurrent.futures as cf
+    rnd = random.Random(seed + 23)
+    CAP = 120
+    R = _corpus.R
+    fixed = [("cnt-ss", [R(11, [11, 11]), R(11, [1])], [1]), ("cnt-expr", [R(11, [11, 2, 11]), R(11, [11, 3, 11]), R(11, [1])], [1, 2, 3]),
+             ("cnt-dangling", [R(11, [1, 11]), R(11, [1, 11, 2, 11]), R(11, [3])], [1, 2, 3]),
+             ("cnt-nullmid", [R(11, [12, 13, 12]), R(12, [1]), R(12, [1, 1]), R(13, []), R(13, [1])], [1]),
+             ("cnt-lists", [R(11, [12]), R(11, [11, 12]), R(12, [1, 13]), R(13, []), R(13, [13, 1])], [1])]
+    ents = [_corpus.entry(i, rules, maxlen=0, alphabet=alpha) for (i, rules, alpha) in fixed]
+    ents += _corpus.random_grammars(seed + 7000, 60 if tier == "quick" else 600, nnts=3, nterms=2, maxrules=6, maxrhs=3, maxlen=0, empty_bias=0.1)
+    keep = []
+    for e in ents:
+        e = dict(e)
+        e["rules"] = [dict(r, an=i + 1, c=1, t=list(range(1, len(r["r"]) + 1))) for i, r in enumerate(e["rules"])]
+        sents = _corpus.gen_sentences(e["rules"], rnd, 10, 11)
+        e["inputs"] = [w for w in sents if len(w) >= 5][:6]
+        if e["id"].startswith("cnt-"):
+            e["inputs"] += [[1] * k for k in (4, 5, 6)] if e["alphabet"] == [1] else []
+        if e["inputs"]:
+            keep.append(e)
+    code = CODEMAPS["ascii"]
+    blocks, meta = [], {}
+    for e in keep:
+        vec = {"id": e["id"], "terms": e["terms"], "rules": e["rules"], "dn": [], "ds": [1], "cases": [{"w": w, "sent": False, "nd": 0, "fo": -1} for w in e["inputs"]]}
+        b = blocks_from_vector(vec, [(0, 0, 0, 0, 3, 0), (2, 0, 0, 0, 3, 0)], mems=(0, 1), want_trees=False)
+        if not b:
+            continue
+        blocks.append([("X sent=-1 cap=%d" % (CAP + 1)) if ln.startswith("X ") else ln for ln in b])
+        meta[e["id"]] = e
+    recs, st = run_harness(os.path.join(builds[0], "yv_replay"), blocks, args=("-t", "-s"))
+    lines = []
+    for r in recs:
+        if r.get("e") == "Abort":
+            res.violation(abort_key(r), dict(r, block=(r.get("block") or [])[:20]))
+        if r.get("k") != "parse" or r["rc"] != 0 or r["over"] or not r["root"]:
+            continue
+        e = meta[r["g"]]
+        c2n = {code(t["c"]): t["n"] for t in e["terms"]}
+        lines.append({"id": "%s/%s/%d" % (r["g"], r["w"], r["la"]), "terms": [t["n"] for t in e["terms"]], "rules": e["rules"], "sa": 0,
+                      "w": [c2n[c] for c in r["toks"]], "la": r["la"], "one": r["one"], "cost": r["cost"], "rec": r["rec"], "match": r["match"], "rc": r["rc"],
+                      "root": r["root"], "amb": r["amb"], "mp1": r.get("mp1", 0), "mp2": r.get("mp2", 0), "calls": r["calls"],
+                      "trees": [parse_canon(s, c2n) for s in r["trees"]], "over": 0, "inj": 1, "cap": CAP + 1})
+    chunks = [lines[i:i + 40] for i in range(0, len(lines), 40)]
+
+    def work(args):
+        i, ch = args
+        return validate_trace(scratch, "ParseTrace", ch, "count_tr%d" % i, timeout=3000), ch
+    with cf.ThreadPoolExecutor(max_workers=max(1, NCPU // 2)) as ex:
+        for (ok, rej, tt), ch in ex.map(work, list(enumerate(chunks))):
+            if not ok:
+                raise Infra("ParseTrace (counted results) did not finish: " + tt["tail"][-2500:])
+            res.cov["states"] += tt.get("distinct", 0)
+            res.cov["transitions"] += tt.get("states", 0)
+            res.cov["traces_validated_against_impl"] += len(ch)
+            for (lno, lid, reasons) in rej:
+                ln = ch[lno - 1]
+                for reason in reasons:
+                    if any(p in reason.split(":")[0] for p in props):
+                        rec = {"line": ln, "reason": reason}
+                        res.violation(classify_trace(rec) or ("trace|" + reason), rec)
+    res.notes["counted_results_validated"] = res.notes.get("counted_results_validated", 0) + len(lines)
+    res.notes["counted_results_with_10_or_more_trees"] = res.notes.get("counted_results_with_10_or_more_trees", 0) + sum(1 for ln in lines if len(ln["trees"]) >= 10)
+    res.cov["distinct_nontrivial"] += sum(1 for ln in lines if len(ln["trees"]) >= 2)
 
 
 # ------------------------------------------------------------------ self-test of the binding (not a registered check)
